@@ -534,6 +534,17 @@ MUTANTS = {
 }
 
 
+def mutant_applicable(name):
+    """False when the code under test no longer contains the text a mutant patches (then it is skipped)."""
+    import importlib
+    (modname, clsname, fname), old = MUTANTS[name][0], MUTANTS[name][1]
+    mod = importlib.import_module(modname)
+    owner = getattr(mod, clsname) if clsname else mod
+    attr = owner.__dict__[fname]
+    fn = attr.__func__ if isinstance(attr, staticmethod) else attr
+    return old in textwrap.dedent(inspect.getsource(fn))
+
+
 def install_mutant(name):
     if name in PATCHES:
         return _mutate(*PATCHES[name])
@@ -994,7 +1005,11 @@ def main(tier, seed, replay=None):
 
     # 4. sensitivity: in-memory mutants of the code under test must be rejected by the monitor (one pool, one batch)
     probe = mutant_probe_sessions()
-    names = [None] + sorted(PATCHES) + sorted(MUTANTS)
+    install()
+    usable = [m for m in sorted(MUTANTS) if mutant_applicable(m)]
+    for m in sorted(set(MUTANTS) - set(usable)):
+        out.sensitivity['mutant:' + m] = 'skipped: the patched text is not in the code under test'
+    names = [None] + sorted(PATCHES) + usable
     jobs = [(s, name) for name in names for s in probe]
     mt = common.pmap(_exec_job, jobs, init=install)
     o2 = common.Outcome('C20', tier, seed)
@@ -1007,7 +1022,7 @@ def main(tier, seed, replay=None):
                                                '%d rejected (%d not explained) with the one-line repair applied in memory' % (
         sum(c != 'ok' for c in base), len(probe), sum(v.ndrift for v in per[None]),
         sum(c != 'ok' for c in fixed), sum(v.ndrift for v in per['fix_empty_path'])))
-    for name in sorted(MUTANTS):
+    for name in usable:
         new = sorted({v.clause for v, b in zip(per[name], base) if v.clause != 'ok' and v.clause != b})
         n_new = sum(1 for v, b in zip(per[name], base) if v.clause != 'ok' and v.clause != b)
         out.sensitivity['mutant:' + name] = '%d of %d probe operations newly rejected (%s)' % (n_new, len(probe), ', '.join(new) or '-')
